@@ -244,6 +244,24 @@ theorem dirTerm_of_pos (num v d : ℝ) (hd : 0 < d) : dirTerm num v d = num / (v
 
 end grad
 
+/-! ### orientation of the pick and uncertainty arrays -/
+
+/-- an array in the stations × events layout is read transposed whenever the two counts differ -/
+theorem oriented_transposed {β : Type} (ne ns : Nat) (h : ne ≠ ns) (a : Nat → Nat → β) :
+    oriented ne ns ns ne a = some (fun e s => a s e) := by
+  have h1 : ¬ (ns = ne ∧ ne = ns) := fun hh => h hh.2
+  simp [oriented, orientation, h1]
+
+/-- an array in the events × stations layout is read as given (also when the counts are equal,
+    where the layout cannot be told from the shape) -/
+theorem oriented_as_given {β : Type} (ne ns : Nat) (a : Nat → Nat → β) : oriented ne ns ne ns a = some a := by
+  simp [oriented, orientation]
+
+/-- any other shape is refused -/
+theorem oriented_refused {β : Type} (ne ns rows cols : Nat) (a : Nat → Nat → β)
+    (h1 : ¬ (rows = ne ∧ cols = ns)) (h2 : ¬ (rows = ns ∧ cols = ne)) : oriented ne ns rows cols a = none := by
+  simp [oriented, orientation, h1, h2]
+
 /-! ### non-vacuity: an event at depth is off every surface station -/
 example : 0 < ∑ c : Fin 2, ((![3, 2] : Fin 2 → ℝ) c - (![1, 0] : Fin 2 → ℝ) c) * ((![3, 2] : Fin 2 → ℝ) c - (![1, 0] : Fin 2 → ℝ) c) := by
   simp [Fin.sum_univ_two]; norm_num
